@@ -506,7 +506,7 @@ _WEIGHTED = [name for name, (_, w) in MOTIFS.items() for _ in range(w)]
 
 @st.composite
 def sequences(draw) -> dict:
-    target = draw(st.sampled_from([2, 3, 4, 5, 6, 8, 10, 12, 16, 22, 30]))
+    target = draw(st.sampled_from([2, 2, 3, 3, 4, 4, 5, 6, 8, 10, 14, 20, 30]))
     msgs: list = []
     motifs: list[str] = []
     while len(msgs) < target:
